@@ -227,6 +227,60 @@ func c15Corpus(thorough bool) []c15Case {
 			}
 		}
 	}
+	// lists longer than any pre-allocation clamp a decoder may use (256), really present in the bytes
+	for _, n := range []int{256, 257, 300} {
+		li := make([]uint32, n)
+		lp := make([][]byte, n)
+		lo := make([]*wire.OutPoint, n)
+		lh := make([]*wire.BlockHeader, n)
+		ids := make([]bitcoin.Hash20, n)
+		path := make([]bitcoin.Hash32, n)
+		dups := make([]uint64, n)
+		mps := make([]*merkle_proof.MerkleProof, n)
+		anc := make(expanded_tx.AncestorTxs, n)
+		for i := 0; i < n; i++ {
+			li[i] = uint32(i)
+			lp[i] = []byte{byte(i), byte(i >> 8)}
+			lo[i] = &wire.OutPoint{Hash: c15Hash(byte(i)), Index: uint32(i)}
+			h := c15Header(i % 50)
+			lh[i] = &h
+			ids[i] = bitcoin.Hash20{byte(i), byte(i >> 8)}
+			path[i] = c15Hash(byte(i))
+			dups[i] = uint64(i)
+			mps[i] = merkle_proof.MockMerkleProofWithTxID(c15Hash(byte(i)), 1+i%5)
+			anc[i] = &expanded_tx.AncestorTx{Tx: txs[1]}
+		}
+		add("SubscribePushData", &client.SubscribePushData{PushDatas: lp})
+		add("UnsubscribePushData", &client.UnsubscribePushData{PushDatas: lp})
+		add("SubscribeTx", &client.SubscribeTx{TxID: h1, Indexes: li})
+		add("UnsubscribeTx", &client.UnsubscribeTx{TxID: h2, Indexes: li})
+		add("SubscribeOutputs", &client.SubscribeOutputs{Outputs: lo})
+		add("UnsubscribeOutputs", &client.UnsubscribeOutputs{Outputs: lo})
+		add("SendTx", &client.SendTx{Tx: txs[1], Indexes: li})
+		add("SendExpandedTx", &client.SendExpandedTx{Tx: &expanded_tx.ExpandedTx{Tx: txs[2], Ancestors: anc}, Indexes: li})
+		add("SaveTxs", &client.SaveTxs{Txs: anc})
+		add("PostMerkleProofs", &client.PostMerkleProofs{MerkleProofs: mps})
+		add("ReprocessTx", &client.ReprocessTx{TxID: h1, ClientIDs: ids})
+		add("Headers", &client.Headers{RequestHeight: 7, StartHeight: 7, Headers: lh})
+		mp := &client.MerkleProof{Index: uint64(n), Path: path, BlockHeader: c15Header(5), DuplicatedIndexes: dups}
+		big := c15Tx(n, 2, 1)
+		outs := make([]*wire.TxOut, n)
+		for j := range outs {
+			outs[j] = wire.NewTxOut(uint64(j), []byte{byte(j)})
+		}
+		add("Tx", &client.Tx{ID: uint64(n), Tx: big, Outputs: outs, State: client.TxState{Safe: true, MerkleProof: mp}})
+		add("TxUpdate", &client.TxUpdate{ID: uint64(n), TxID: h2, State: client.TxState{UnSafe: true, MerkleProof: mp}})
+		fq := make(merchant_api.FeeQuotes, n)
+		for i := range fq {
+			fq[i] = &merchant_api.FeeQuote{FeeType: merchant_api.FeeTypeStandard, MiningFee: merchant_api.Fee{Satoshis: uint64(i), Bytes: 1000}, RelayFee: merchant_api.Fee{Satoshis: 1, Bytes: uint64(i)}}
+		}
+		add("FeeQuotes", &client.FeeQuotes{FeeQuotes: fq})
+	}
+	// text that is not one byte per character
+	for _, msg := range []string{"é", "naïve – “quoted”", "日本語のエラー", "emoji 😀 ok", strings.Repeat("ü", 0xfd), strings.Repeat("語", 300)} {
+		add("Reject", &client.Reject{MessageType: client.MessageTypeSendTx, Hash: &h1, Code: 3, Message: msg})
+		add("Reject", &client.Reject{MessageType: 0xfd, Hash: nil, Code: 0, Message: msg})
+	}
 	_ = thorough
 	return out
 }
